@@ -51,3 +51,17 @@ Fixpoint all2r (l : list (rstate * bool)) (o : list (Z * Z * bool)) : bool :=
   end.
 Definition rcase_agrees (c : rcase) : bool :=
   let '(sh, l0, g0, ops, obs) := c in all2r (r_trace sh (mkR l0 g0) (map rop_of ops)) obs.
+
+(* ---- what a library routine that distributes a loop does with the parallel machinery, in source order:
+   PS = start_parallel_region(), PQ lo = a loop over block_distributed_range(lo, .) (or _list / _array),
+   PA covers = allreduce(X, "sum") where covers says that X is touched inside the preceding distributed loop,
+   PF = close_parallel_region(), PRet = a return statement, POther = any other use of the machinery (reduce, bcast, ...).
+   Well formed: a sequence of regions, each opening, one distributed loop, the all-reduction of what the loop wrote, closing. ---- *)
+Inductive pev := PS | PQ (lo : Z) | PA (covers : bool) | PF | PRet | POther.
+Fixpoint well_formed (l : list pev) : bool :=
+  match l with
+  | [] => true
+  | PS :: PQ _ :: PA true :: PF :: rest => well_formed rest
+  | PRet :: rest => well_formed rest          (* returning outside every region *)
+  | _ => false
+  end.
